@@ -178,6 +178,43 @@ impl Vm {
     fn call_value(&mut self, value: Value, arg_count: usize) -> (r: Result<(), Error>) ensures old(self).same_heap(final(self)), final(self).stack_at_call == old(self).stack, final(self).called == Some((Callee::AnyValue(value), arg_count)), final(self).raised == old(self).raised { unimplemented!() }
 
     pub open spec fn inst_of(&self, v: Value) -> ObjInstance { self.insts[v->ObjInstance_0.id()] }
+    // `instance.borrow_mut().fields` / `module.borrow_mut().attributes` as places
+    #[verifier::external_body]
+    fn inst_fields_mut(&mut self, g: Gc<RefCell<ObjInstance>>) -> (r: &mut VMap)
+        requires old(self).insts.dom().contains(g.id())
+        ensures *r == old(self).insts[g.id()].fields, final(self).insts == old(self).insts.insert(g.id(), ObjInstance { class: old(self).insts[g.id()].class, fields: *final(r) }),
+            final(self).mods == old(self).mods, final(self).working_class_def == old(self).working_class_def, final(self).stack == old(self).stack, final(self).raised == old(self).raised, final(self).called == old(self).called, final(self).next_name == old(self).next_name
+    { unimplemented!() }
+    #[verifier::external_body]
+    fn mod_attributes_mut(&mut self, g: Gc<RefCell<ObjModule>>) -> (r: &mut VMap)
+        requires old(self).mods.dom().contains(g.id())
+        ensures *r == old(self).mods[g.id()].attributes, final(self).mods == old(self).mods.insert(g.id(), ObjModule { class: old(self).mods[g.id()].class, attributes: *final(r) }),
+            final(self).insts == old(self).insts, final(self).working_class_def == old(self).working_class_def, final(self).stack == old(self).stack, final(self).raised == old(self).raised, final(self).called == old(self).called, final(self).next_name == old(self).next_name
+    { unimplemented!() }
+
+    // SetProperty (stack: receiver, value): the receiver instance's OWN field of that name becomes the value — no other
+    // field, no other instance and no class table changes — and the expression's value is the assigned value; a module's
+    // attribute likewise; anything else has no fields: AttributeError, nothing changes.
+    //@fn file=yarel/src/vm.rs path=Vm::set_property_impl ret=r
+    //@  rewrite R1
+    //@  subst "module.borrow_mut().attributes.insert(name, value);" => "self.mod_attributes_mut(module).insert(name, value);"
+    //@  subst "instance.borrow_mut().fields.insert(name, value);" => "self.inst_fields_mut(instance).insert(name, value);"
+    //@  requires old(self).wf(), old(self).stack.len() >= 2
+    //@  ensures @assignment_sets_exactly_that_field_of_that_instance old(self).top(1) is ObjInstance ==> r is Ok && ({ let id = old(self).top(1)->ObjInstance_0.id(); final(self).insts == old(self).insts.insert(id, ObjInstance { class: old(self).insts[id].class, fields: VMap { view: old(self).insts[id].fields.view.insert(old(self).next_name, old(self).top(0)) } }) }) && final(self).mods == old(self).mods
+    //@  ensures @the_assignment_expression_yields_the_assigned_value (old(self).top(1) is ObjInstance || old(self).top(1) is ObjModule) ==> final(self).stack == old(self).stack.drop_last().drop_last().push(old(self).top(0)) && final(self).raised == old(self).raised
+    //@  ensures @only_instances_and_modules_have_fields !(old(self).top(1) is ObjInstance || old(self).top(1) is ObjModule) ==> final(self).raised == Some(ErrorKind::AttributeError) && old(self).same_heap(final(self))
+    //@  ensures final(self).working_class_def == old(self).working_class_def
+    //@end
+
+    // Method / StaticMethod: the closure on top of the stack becomes the member named by the operand
+    //@fn file=yarel/src/vm.rs path=Vm::method_impl ret=r
+    //@  requires old(self).stack.len() >= 1, old(self).working_class_def is Some
+    //@  ensures @an_instance_method_goes_into_the_class_table r is Ok && final(self).working_class_def is Some && final(self).working_class_def->0.class.methods.view == old(self).working_class_def->0.class.methods.view.insert(old(self).next_name, old(self).stack.last()) && final(self).working_class_def->0.metaclass.methods.view == old(self).working_class_def->0.metaclass.methods.view.remove(old(self).next_name)
+    //@end
+    //@fn file=yarel/src/vm.rs path=Vm::static_method_impl ret=r
+    //@  requires old(self).stack.len() >= 1, old(self).working_class_def is Some
+    //@  ensures @a_static_method_or_constructor_goes_into_the_metaclass_table_too r is Ok && final(self).working_class_def is Some && final(self).working_class_def->0.metaclass.methods.view == old(self).working_class_def->0.metaclass.methods.view.insert(old(self).next_name, old(self).stack.last()) && final(self).working_class_def->0.class.methods.view == old(self).working_class_def->0.class.methods.view.insert(old(self).next_name, old(self).stack.last())
+    //@end
 
     // Binding: the method named `name` of `class`, bound to the value on top of the stack (which it replaces).
     //@fn file=yarel/src/vm.rs path=Vm::bind_method ret=r
